@@ -439,26 +439,30 @@ PROPS = {
         ],
     },
     "C18": {
-        "title": "Logging front end: the request / response wrapper (deductive) and tag order / isolation on one thread (bounded)",
+        "title": "Logging front end: the request / response wrapper, `log` with its tag order and the three front functions (deductive); thread-local isolation and the installed logger (bounded)",
         "design_ref": "DESIGN.md section 3 (C18)",
         "technique": "Verus contracts on the real log_response and log_request_and_response (src/log/mod.rs) over an abstract logger (`log` as a "
-                     "stand-in whose only effect is the uninterpreted fact was_logged(level, tags)); everything about tag order, thread-local tags and the "
-                     "installed logger only by a bounded stand-in that installs a capturing logger",
+                     "stand-in whose only effect is the uninterpreted fact was_logged(level, tags)), and on the real `log` (src/log/logger.rs) and error / info / debug "
+                     "(unit logorder: the thread-local tags, the stable sort and the installed logger as rule-S1 / opaque stand-ins, the key closure on its real text); "
+                     "thread-local isolation and the installed logger only by a bounded stand-in that installs a capturing logger",
         "level_text": "Deductive proof for every handler result: log_response returns the handler's own response for Ok, the error's response for an "
                       "Err that has one and the bare 500 otherwise; it hands the logger exactly the event [code, response_body_len when the length is "
                       "known] at info for a response and [the error's own tags, its message, (its backtrace,) code, response_body_len] at error for an "
                       "error; a stopped logger comes back as Err (the `?`), never as a panic. log_request_and_response returns exactly what "
-                      "log_response makes of whatever the handler returned for that request.",
+                      "log_response makes of whatever the handler returned for that request. `log` (unit logorder): on Ok exactly one event was handed to the installed logger, with the "
+                      "level given and the tags ordered(given tags ++ the calling thread's tags), where ordered = the msg tags, then http_method, path, request_body_len, request_body, "
+                      "response_body_len, then all others -- each kind in the order given (the key closure's table is proved equal to that ranking); on Err nothing is claimed but the error. "
+                      "error / info / debug: the same with their level and the message tag in front of the tags given. Theorems: ordered(s) has as many tags as s and exactly the same ones "
+                      "(thm_all_tags_and_no_other); tags of one kind keep the order given (thm_order_given_is_kept); a leading msg tag stays first (thm_message_first).",
         "level_note": "Partial claim. Not within the technique: that each call produces exactly one event *at the installed logger* under concurrent "
                       "install / clear, that tags of other threads never leak under real concurrency, the stdout default logger -- these need the "
                       "global mutex, the channel and thread_local! (no Verus model). Bounded only (stand-in c18, one thread plus one helper thread, "
-                      "capturing logger through set_global_logger, events read back through write_jsonl): msg / http_method / path / request_body_len / "
-                      "request_body / response_body_len first in that order and the other tags in the order given, thread-local tags appended and "
+                      "capturing logger through set_global_logger, events read back through write_jsonl): the same tag order end to end (incl. 48 tags), thread-local tags appended and "
                       "cleared, a foreign thread's tag absent, the three levels, the wrapper starting from a clean tag set and carrying the request's "
                       "tags, a stopped logger as Err. Assumed: Tag::new stores the name and the converted value (tv_of), "
                       "`e.response.unwrap_or_else(Response::internal_server_error_500)` as `the error's response or the bare 500` (rule S1; the "
                       "constructor is under a Kani harness in C20), ResponseBody::len (proved in unit respwrite).",
-        "verus": ["logwrap"],
+        "verus": ["logwrap", "logorder"],
         "verus_thorough": [],
         "kani": [],
         "witness": "c18",
@@ -466,12 +470,14 @@ PROPS = {
             "assumed: `log(time, level, tags)` delivers exactly one event with that level and those tags to the installed logger or returns LoggerStoppedError (stand-in; was_logged is uninterpreted)",
             "assumed: Tag::new(name, value) == Tag { name, value: value.into() } with the conversion kept abstract (tv_of)",
             "rule S1 stand-ins: `e.response.unwrap_or_else(Response::internal_server_error_500)`, `before.elapsed().as_millis()`; the thread-local tag operations are opaque calls",
+            "unit logorder, rule S1: `tags.0.sort_by_key(KEY)` -> sort_tags_by_key(&mut tags.0, KEY) assumed to be a stable sort (for a key with the values 0..5, 99: the concatenation of the per-key subsequences in key order), with the precondition that KEY computes the ranking -- proved for the real closure; `with_thread_local_log_tags(|t| tags.0.extend_from_slice(t))` -> append_thread_tags (the thread's own tags are the uninterpreted thread_tags()); `tags.into()` / `msg.into()` -> abstract conversions (Into<TagList> for Vec<Tag> keeps the tags)",
+            "unit logorder: two `&str` with the same characters are the same value (string-literal patterns are compared as values by Verus)",
+            "unit logorder: global_logger().send(event) hands the event to the installed logger or fails (was_sent is uninterpreted)",
         ],
         "not_covered": [
             "exactly-once delivery and routing under concurrent set_global_logger / drop, the default stdout logger",
             "thread-local isolation under real concurrency (bounded c18 checks it with one sequential helper thread)",
-            "the tag ordering inside `log` (sort_by_key with a closure over string literals): bounded c18 only",
-            "info / error / debug front functions (tags.insert(0, msg)): bounded c18 only",
+            "that std's sort_by_key is stable, and which tags the thread-local holds (bounded c18 observes both end to end)",
         ],
     },
     "C03": {
@@ -585,7 +591,7 @@ PROPS = {
 # are listed in its evidence as notes (they are another property's alarm, or an unproved supporting contract).
 UNIT_OWNER = {
     "time": "C16", "chunked": "C07", "headers": "C14", "copy": "C09", "body": "C09", "conn": "C05", "head": "C01",
-    "parse": "C02", "logset": "C19", "logwriter": "C19", "jsonl": "C17", "cookie": "C15", "timefmt": "C16", "tryread": "C02", "logwrap": "C18", "cookiereq": "C15", "framing": "C03", "respguard": "C06", "respwrite": "C06", "errresp": "C20", "sse": "C11",
+    "parse": "C02", "logset": "C19", "logwriter": "C19", "jsonl": "C17", "cookie": "C15", "timefmt": "C16", "tryread": "C02", "logwrap": "C18", "cookiereq": "C15", "framing": "C03", "respguard": "C06", "respwrite": "C06", "errresp": "C20", "sse": "C11", "logorder": "C18",
 }
 SCOPE = {
     # total request reading also needs the parsers to be panic-free
